@@ -4,7 +4,7 @@
    as templates over Model/Rolling.v that are emitted only when the source statements match). *)
 From Coq Require Import QArith ZArith Qcanon List Bool Lia.
 Import ListNotations.
-From S2 Require Import Base.Num Base.Arr Base.ZArr Model.Expr Model.Rolling Gen.UtilGen Gen.InterpolateGen Gen.MiscGen
+From S2 Require Import Base.Num Base.Arr Base.ZArr Model.Expr Model.Rolling Gen.UtilGen Gen.InterpolateGen Gen.RollingGen
      Proofs.NumQc Proofs.OrderLemmas Proofs.TimeFnProofs Proofs.RollingProofs.
 
 (* the binary search returns #{i | points[i] <= x} for every sorted array of any length >= 1 and
